@@ -1941,6 +1941,41 @@ fn main() {
                 None => println!("cursor=build-failed"),
             }
         }
+        // level_iter_damaged ops damaged t1U:seq t2U:seq shape uk:seq:op:vv ... : like level_iter, but table `damaged` of the level has an
+        // altered footer; ops are first / last / seek (target 1) / seek2 (target 2). Printed per step: ok|err and the cursor; the
+        // reference says which table each step lands in
+        "level_iter_damaged" => {
+            let damaged = num(a[2]) as usize;
+            let (t1, t2) = (key(a[3]), key(a[4]));
+            let shape: Vec<usize> = a[5].split(',').map(|x| num(x) as usize).collect();
+            let mut files: Vec<Vec<(Vec<u8>, u64, bool, Vec<u8>)>> = vec![];
+            let mut idx = 6;
+            for c in &shape {
+                let mut f = vec![];
+                for _ in 0..*c {
+                    let p: Vec<&str> = a[idx].split(':').collect();
+                    f.push((hex(p[0]), num(p[1]), p[2] == "1", hex(p[3])));
+                    idx += 1;
+                }
+                files.push(f);
+            }
+            let fs = std::sync::Arc::new(raindb::fs::InMemoryFileSystem::new());
+            let o = v::options_with(fs, 400);
+            let ops: Vec<&str> = a[1].split(',').collect();
+            // reference: (file index, entry) each absolute operation lands on
+            let flat: Vec<(usize, &(Vec<u8>, u64, bool, Vec<u8>))> = files.iter().enumerate().flat_map(|(i, f)| f.iter().map(move |e| (i, e))).collect();
+            let land = |t: &(Vec<u8>, u64)| flat.iter().find(|(_, e)| e.0.as_slice() > t.0.as_slice() || (e.0 == t.0 && e.1 <= t.1)).cloned();
+            let mut exp: Vec<String> = vec![];
+            for op in &ops {
+                let l = match *op { "first" => flat.first().cloned(), "last" => flat.last().cloned(), "seek" => land(&t1), _ => land(&t2) };
+                exp.push(match l { Some((fi, _)) if fi == damaged => "err".to_string(), Some((_, e)) => format!("ok:{}:{}:{:02x}", tohex(&e.0), e.1, e.3[0]), None => "ok:none".to_string() });
+            }
+            match v::level_iter_damaged(&o, &files, damaged, &ops, [(&t1.0, t1.1), (&t2.0, t2.1)]) {
+                Some(c) => println!("steps={}", c.iter().map(|(ok, x)| if !*ok { "err".to_string() } else { match x { Some((k, s, val)) => format!("ok:{}:{}:{:02x}", tohex(k), s, val), None => "ok:none".to_string() } }).collect::<Vec<_>>().join(",")),
+                None => println!("steps=build-failed"),
+            }
+            println!("expected={}", exp.join(","));
+        }
         // compaction_edit_files : three overlapping tables at three levels are compacted manually; afterwards every key must
         // read its newest value and the version must hold exactly one table (all inputs deleted, the output installed once)
         "compaction_edit_files" => {
